@@ -35,7 +35,8 @@ EXPLANATION = (
     "it was never published, nodes are retired only by the thread whose Mark CAS won, the erase functor / counter run only after help_delete "
     "succeeded, the new internal node's children are ordered by the comparison made in try_insert and initialised before the flag CAS. Bronson map: the link / version / height / value fields of a node are written only while that node's monitor lock is held "
     "(own scoped lock, or a parameter that every call site of a *_locked member / helper lambda passes locked or freshly allocated - inferred as a "
-    "greatest fixpoint over the call sites); a child's parent pointer is written under the lock of the node that becomes its parent. NOT decided:: linearizability, extract_min/max emptiness claims, helping progress.")
+    "greatest fixpoint over the call sites); a child's parent pointer is written under the lock of the node that becomes its parent; a member given (pNode, nVersion) re-validates pNode->version() == nVersion under "
+    "pNode's lock before it writes or unlinks pNode. NOT decided: linearizability, extract_min/max emptiness claims, helping progress.")
 ASSUMPTIONS = ["clang CFG (-DNDEBUG); asserts harvested from a second parse with -UNDEBUG", "rules/rcu_contract.json is the reviewed reference of "
                "members whose callers must hold the RCU lock", "necessary conditions only"]
 R = "Otherwise a node is touched after reclamation, linked out of order, retired twice / while reachable, or an update is applied on a stale position (C15)."
@@ -338,5 +339,12 @@ def r15_5(ctx):
 r15_5.rule_id = "R15.5"
 
 
-RULES = [r15_1, r15_2, r15_3, r15_4, r15_5, r15_6]
-FLOORS = {"R15.1": 20, "R15.2": 150, "R15.3": 20, "R15.4": 40, "R15.5": 20, "R15.6": 1}
+def r15_7(ctx):
+    n = bronson.rule_version_validation(ctx, "R15.7", R)
+    if n < 3:
+        ctx.broken("Bronson version re-validation sites not found (%d)" % n)
+r15_7.rule_id = "R15.7"
+
+
+RULES = [r15_1, r15_2, r15_3, r15_4, r15_5, r15_6, r15_7]
+FLOORS = {"R15.1": 20, "R15.2": 150, "R15.3": 20, "R15.4": 40, "R15.5": 20, "R15.6": 1, "R15.7": 3}
